@@ -404,6 +404,19 @@ pub fn silence_panics() {
     }));
 }
 
+/// Runs an engine's entry point; a panic that escapes it is a machinery error (exit 2), never
+/// an exit status outside the interface.
+pub fn guarded_main(f: impl FnOnce() -> i32) -> ! {
+    let code = match std::panic::catch_unwind(std::panic::AssertUnwindSafe(f)) {
+        Ok(c) => c,
+        Err(p) => {
+            eprintln!("MACHINERY-ERROR: the engine panicked: {}; no verdict", panic_message(&*p));
+            2
+        }
+    };
+    std::process::exit(code)
+}
+
 /// While set, no panic is reported on stderr (scenarios that kill threads of the system under test
 /// on purpose; the collateral panics happen on threads the harness does not own).
 pub static ALL_QUIET: std::sync::atomic::AtomicBool = std::sync::atomic::AtomicBool::new(false);
